@@ -132,13 +132,15 @@ func (r *gatewayController) buildDesiredHTTPRoute(rules []gatewayv1beta1.HTTPRou
 	if weight != nil && *weight == -1 {
 		for i := range rules {
 			rule := rules[i]
+			_, canaryRef := getServiceBackendRef(rule, r.conf.CanaryService)
 			filterOutServiceBackendRef(&rule, r.conf.CanaryService)
 			_, stableRef := getServiceBackendRef(rule, r.conf.StableService)
 			if stableRef != nil {
 				stableRef.Weight = utilpointer.Int32(1)
 				setServiceBackendRef(&rule, *stableRef)
 			}
-			if len(rule.BackendRefs) != 0 {
+			// only a rule generated for the canary is dropped; a backend-less rule of the user (e.g. a redirect) stays
+			if canaryRef == nil || len(rule.BackendRefs) != 0 {
 				desired = append(desired, rule)
 			}
 		}
